@@ -10,7 +10,7 @@ From Coq.Strings Require Import String.
 From EV Require Import Base.Bytes Base.Store Base.Monad gen.Consts Codec.Types Codec.Proto Codec.Ideal Codec.CodecOk
   Helpers.Helpers Ledger.Types Ledger.Env Ledger.Funcs Ledger.Transfers Corr.Exec
   LedgerProofs.Defs LedgerProofs.EnvSpec LedgerProofs.Spec_Transfers_Base LedgerProofs.Spec_Transfers_Multi
-  LedgerProofs.Spec_Supply LedgerProofs.C04_Core.
+  LedgerProofs.Spec_Supply LedgerProofs.C04_Core LedgerProofs.C04_Toggle LedgerProofs.C04_Sim.
 
 Definition alice : bytes := repeat x01 32.
 Definition carol : bytes := repeat x03 32.
@@ -263,8 +263,84 @@ Example ex_entry_level_flag_does_not_gate_other_nonces :
   /\ balance EI (post r) alice (P ++ tokA) = 5%Z.
 Proof. vm_compute. repeat split. Qed.
 
+(* ---- 7. toggling: freeze ; unfreeze leaves a DIFFERENT state (Properties [] -> [0;0]) that behaves the same ---- *)
+Lemma EI_nf : no_faults EI. Proof. intros n. reflexivity. Qed.
+Definition in_fr := mkin SC alice [tokA] false true false.
+Definition s_fr1 : mstate := post (exec EI C.BuiltInFunctionESDTFreeze in_fr s_plain).
+Definition s_fr2 : mstate := post (exec EI C.BuiltInFunctionESDTUnFreeze in_fr s_fr1).
+Example ex_toggle_runs :
+  is_ok (exec EI C.BuiltInFunctionESDTFreeze in_fr s_plain) = true
+  /\ is_ok (exec EI C.BuiltInFunctionESDTUnFreeze in_fr s_fr1) = true
+  /\ frozen_at EI s_fr1 alice (P ++ tokA) = true /\ frozen_at EI s_fr2 alice (P ++ tokA) = false
+  /\ cell s_fr2 alice (P ++ tokA) <> cell s_plain alice (P ++ tokA)
+  /\ tok_at EI s_plain alice (P ++ tokA) = Some (tk 5 []) /\ tok_at EI s_fr2 alice (P ++ tokA) = Some (tk 5 [x00; x00]).
+Proof. vm_compute. repeat split. discriminate. Qed.
+Lemma ok_eq {A} (r : res err A * mstate) : is_ok r = true -> exists o, r = (Ok o, post r).
+Proof. destruct r as [[o| |] s]; try discriminate. exists o. reflexivity. Qed.
+Example inst_freeze_unfreeze_SR : SR EI true s_plain s_fr2.
+Proof.
+  destruct ex_toggle_runs as (H1 & H2 & _).
+  apply ok_eq in H1 as (o1 & H1). apply ok_eq in H2 as (o2 & H2).
+  eapply (freeze_unfreeze_SR EI EI_ok true in_fr in_fr); [exact H1|exact H2|reflexivity|reflexivity| |].
+  - intros H. vm_compute in H. discriminate.
+  - intros t Ht. assert (Hk : tok_at EI s_plain alice (P ++ tokA) = Some (tk 5 [])) by (vm_compute; reflexivity).
+    change (tok_at EI s_plain alice (P ++ tokA) = Some t) in Ht. rewrite Hk in Ht. inversion Ht; subst t. vm_compute. repeat split. discriminate.
+Qed.
+(* ... so a later transfer by alice gives the same output and balances from both states *)
+Definition in_ac := mkin alice carol [tokA; one] true true false.
+Example inst_props_irrelevance :
+  exists o s' u', exec EI C.BuiltInFunctionESDTTransfer in_ac s_plain = (Ok o, s')
+    /\ exec EI C.BuiltInFunctionESDTTransfer in_ac s_fr2 = (Ok o, u')
+    /\ SR EI true s' u'
+    /\ balance EI s' carol (P ++ tokA) = 6%Z /\ balance EI u' carol (P ++ tokA) = 6%Z.
+Proof.
+  pose proof (props_irrelevance EI EI_ok EI_nf true C.BuiltInFunctionESDTTransfer in_ac s_plain s_fr2 eq_refl
+                inst_freeze_unfreeze_SR) as H.
+  assert (Hp : sys_not_party C.BuiltInFunctionESDTTransfer in_ac).
+  { right. right. split; intros Hx; vm_compute in Hx; discriminate. }
+  assert (Hd : nft_sender_side C.BuiltInFunctionESDTTransfer in_ac -> dst_arg C.BuiltInFunctionESDTTransfer in_ac <> SYS).
+  { intros [[Hx|Hx] _]; vm_compute in Hx; discriminate. }
+  specialize (H Hp Hd).
+  assert (K1 : is_ok (exec EI C.BuiltInFunctionESDTTransfer in_ac s_plain) = true) by (vm_compute; reflexivity).
+  apply ok_eq in K1 as (o & K1). rewrite K1 in H.
+  destruct (exec EI C.BuiltInFunctionESDTTransfer in_ac s_fr2) as [[o'| |] u'] eqn:K2; try contradiction.
+  destruct H as [<- Hs]. exists o, (post (exec EI C.BuiltInFunctionESDTTransfer in_ac s_plain)), u'.
+  split; [exact K1|]. split; [reflexivity|]. split; [exact Hs|]. split; [vm_compute; reflexivity|].
+  assert (Hu : u' = post (exec EI C.BuiltInFunctionESDTTransfer in_ac s_fr2)) by (rewrite K2; reflexivity).
+  rewrite Hu. vm_compute. reflexivity.
+Qed.
+(* the exclusion of props_irrelevance_partial is necessary: an NFT entry whose Properties were toggled (freeze and
+   unfreeze addressed to "tokA ‖ nonce 7", the key of alice's NFT entry) is forwarded with its Properties bytes:
+   the sender side of ESDTNFTTransfer returns a different output from the two states *)
+Definition tokA7 : bytes := tokA ++ u64_bytes 7.
+Definition s_nft : mstate := state_of [(alice, mkacct [(nft_key (P ++ tokA) 7, enc_token (nft 3 [] 7))])].
+Definition in_fr7 := mkin SC alice [tokA7] false true false.
+Definition s_nft2 : mstate :=
+  post (exec EI C.BuiltInFunctionESDTUnFreeze in_fr7 (post (exec EI C.BuiltInFunctionESDTFreeze in_fr7 s_nft))).
+Definition in_nft := mkin alice alice [tokA; [x07]; one; carol] true true false.
+Example props_irrelevance_nft_sender_refuted :
+  SR EI false s_nft s_nft2
+  /\ is_ok (exec EI C.BuiltInFunctionESDTNFTTransfer in_nft s_nft) = true
+  /\ is_ok (exec EI C.BuiltInFunctionESDTNFTTransfer in_nft s_nft2) = true
+  /\ fst (exec EI C.BuiltInFunctionESDTNFTTransfer in_nft s_nft) <> fst (exec EI C.BuiltInFunctionESDTNFTTransfer in_nft s_nft2).
+Proof.
+  split.
+  - assert (H1 : is_ok (exec EI C.BuiltInFunctionESDTFreeze in_fr7 s_nft) = true) by (vm_compute; reflexivity).
+    assert (H2 : is_ok (exec EI C.BuiltInFunctionESDTUnFreeze in_fr7 (post (exec EI C.BuiltInFunctionESDTFreeze in_fr7 s_nft))) = true)
+      by (vm_compute; reflexivity).
+    apply ok_eq in H1 as (o1 & H1). apply ok_eq in H2 as (o2 & H2).
+    eapply (freeze_unfreeze_SR EI EI_ok false in_fr7 in_fr7); [exact H1|exact H2|reflexivity|reflexivity| |].
+    + intros H. vm_compute in H. discriminate.
+    + intros t Ht. assert (Hk : tok_at EI s_nft alice (P ++ tokA7) = Some (nft 3 [] 7)) by (vm_compute; reflexivity).
+      change (tok_at EI s_nft alice (P ++ tokA7) = Some t) in Ht. rewrite Hk in Ht. inversion Ht; subst t. vm_compute. repeat split; discriminate.
+  - split; [vm_compute; reflexivity|]. split; [vm_compute; reflexivity|]. vm_compute. discriminate.
+Qed.
+
 Print Assumptions inst_frozen_no_balance_change.
 Print Assumptions inst_paused_no_balance_change.
 Print Assumptions frozen_no_balance_change_refuted.
 Print Assumptions frozen_no_balance_change_create_refuted.
 Print Assumptions frozen_no_balance_change_f4b_refuted.
+Print Assumptions inst_freeze_unfreeze_SR.
+Print Assumptions inst_props_irrelevance.
+Print Assumptions props_irrelevance_nft_sender_refuted.
